@@ -376,4 +376,117 @@ pub proof fn lemma_concat_exact<N, const K: usize>(a: Arena<N, K>, h: Map<usize,
         }
     }
 }
+// ---- breadth-first: the queue partitions what is still to come ----
+// nodes still to come: everything at or below a queue entry
+pub open spec fn queue_covers<N, const K: usize>(a: Arena<N, K>, q: Seq<DfsNodeData>, x: usize) -> bool {
+    exists|j: int| 0 <= j < q.len() && sub_nodes(a, (#[trigger] q[j]).index).contains(x)
+}
+// ... and the subtrees of different queue entries are disjoint
+pub open spec fn queue_disjoint<N, const K: usize>(a: Arena<N, K>, q: Seq<DfsNodeData>) -> bool {
+    forall|j1: int, j2: int, x: usize| 0 <= j1 < j2 < q.len() ==> !(#[trigger] sub_nodes(a, q[j1].index).contains(x) && #[trigger] sub_nodes(a, q[j2].index).contains(x))
+}
+// one step of Bfs::next: the returned node was still to come, it is the only node that is no longer to come, and the partition is kept -
+// so a run of `next` calls from `new` returns every node at or below the start exactly once
+pub proof fn lemma_bfs_partition<N, const K: usize>(a: Arena<N, K>, troot: Option<usize>, q0: Seq<DfsNodeData>, q1: Seq<DfsNodeData>, lp: usize, it: DfsNodeData)
+    requires wf_at(a, troot), bfs_step(a, q0, q1, lp, Some(it)), queue_disjoint(a, q0), forall|j: int| 0 <= j < q0.len() ==> a.dom().contains((#[trigger] q0[j]).index)
+    ensures queue_disjoint(a, q1), queue_covers(a, q0, it.index), !queue_covers(a, q1, it.index),
+        forall|x: usize| x != it.index ==> (queue_covers(a, q1, x) <==> queue_covers(a, q0, x)),
+        forall|j: int| 0 <= j < q1.len() ==> a.dom().contains((#[trigger] q1[j]).index),
+{
+    let d = choose|d: Map<usize, nat>| ranked(a, d);
+    let n = it.index;
+    let dp = (it.depth + 1) as usize;
+    let rest = q0.drop_first();
+    let ki = kid_items(a[n].children, 0, dp);
+    assert(q0[0] == it);
+    assert(q1 == rest + ki);
+    lemma_c_sub_split(a, d, n);
+    lemma_kid_items_cover(a, d, n, 0, dp);
+    assert(sub_nodes(a, n).contains(n));
+    // entries of q1: either an old entry other than the head, or a child of n
+    assert forall|j: int| 0 <= j < q1.len() implies a.dom().contains((#[trigger] q1[j]).index)
+        && (j < rest.len() ==> q1[j] == q0[j + 1]) && (j >= rest.len() ==> q1[j] == ki[j - rest.len()] && sub_nodes(a, q1[j].index).subset_of(kids_nodes(a, n, 0))) by {
+        if j < rest.len() { assert(q1[j] == rest[j]); assert(rest[j] == q0[j + 1]); }
+        else { assert(q1[j] == ki[j - rest.len()]); }
+    }
+    assert forall|j1: int, j2: int, x: usize| 0 <= j1 < j2 < q1.len() implies !(#[trigger] sub_nodes(a, q1[j1].index).contains(x) && #[trigger] sub_nodes(a, q1[j2].index).contains(x)) by {
+        if sub_nodes(a, q1[j1].index).contains(x) && sub_nodes(a, q1[j2].index).contains(x) {
+            if j2 < rest.len() { assert(q1[j1] == q0[j1 + 1] && q1[j2] == q0[j2 + 1]); }
+            else if j1 < rest.len() {
+                assert(q1[j1] == q0[j1 + 1]);
+                assert(kids_nodes(a, n, 0).contains(x));
+                assert(sub_nodes(a, q0[0].index).contains(x));
+            } else {
+                assert(ki[j1 - rest.len()] == q1[j1] && ki[j2 - rest.len()] == q1[j2]);
+            }
+        }
+    }
+    assert forall|x: usize| x != n implies (queue_covers(a, q1, x) <==> queue_covers(a, q0, x)) by {
+        if queue_covers(a, q1, x) {
+            let j = choose|j: int| 0 <= j < q1.len() && sub_nodes(a, (#[trigger] q1[j]).index).contains(x);
+            if j < rest.len() { assert(sub_nodes(a, q0[j + 1].index).contains(x)); }
+            else { assert(kids_nodes(a, n, 0).contains(x)); assert(sub_nodes(a, q0[0].index).contains(x)); }
+        }
+        if queue_covers(a, q0, x) {
+            let j = choose|j: int| 0 <= j < q0.len() && sub_nodes(a, (#[trigger] q0[j]).index).contains(x);
+            if j > 0 { assert(q1[j - 1] == q0[j]); assert(sub_nodes(a, q1[j - 1].index).contains(x)); }
+            else {
+                assert(kids_nodes(a, n, 0).contains(x));
+                let k = choose|k: int| 0 <= k < ki.len() && sub_nodes(a, (#[trigger] ki[k]).index).contains(x);
+                assert(q1[rest.len() + k] == ki[k]);
+                assert(sub_nodes(a, q1[rest.len() + k].index).contains(x));
+            }
+        }
+    }
+    if queue_covers(a, q1, n) {
+        let j = choose|j: int| 0 <= j < q1.len() && sub_nodes(a, (#[trigger] q1[j]).index).contains(n);
+        if j < rest.len() { assert(sub_nodes(a, q0[j + 1].index).contains(n)); assert(sub_nodes(a, q0[0].index).contains(n)); }
+        else { assert(kids_nodes(a, n, 0).contains(n)); }
+    }
+}
+// the children items: their subtrees are pairwise disjoint and together make up kids_nodes
+pub proof fn lemma_kid_items_cover<N, const K: usize>(a: Arena<N, K>, d: Map<usize, nat>, i: usize, lo: int, dp: usize)
+    requires kids_ok(a), kids_unique(a), ranked(a, d), a.dom().contains(i), 0 <= lo <= K
+    ensures
+        forall|k: int| 0 <= k < kid_items(a[i].children, lo, dp).len() ==> a.dom().contains((#[trigger] kid_items(a[i].children, lo, dp)[k]).index)
+            && sub_nodes(a, kid_items(a[i].children, lo, dp)[k].index).subset_of(kids_nodes(a, i, lo)),
+        forall|x: usize| kids_nodes(a, i, lo).contains(x) ==> exists|k: int| 0 <= k < kid_items(a[i].children, lo, dp).len() && sub_nodes(a, (#[trigger] kid_items(a[i].children, lo, dp)[k]).index).contains(x),
+        forall|k1: int, k2: int, x: usize| 0 <= k1 < k2 < kid_items(a[i].children, lo, dp).len() ==>
+            !(#[trigger] sub_nodes(a, kid_items(a[i].children, lo, dp)[k1].index).contains(x) && #[trigger] sub_nodes(a, kid_items(a[i].children, lo, dp)[k2].index).contains(x)),
+    decreases K - lo
+{
+    let ch = a[i].children;
+    let all = kid_items(ch, lo, dp);
+    if lo < K {
+        lemma_kid_items_cover(a, d, i, lo + 1, dp);
+        lemma_c_kids_split(a, d, i, lo);
+        let rest = kid_items(ch, lo + 1, dp);
+        if ch[lo] is Some {
+            let c = ch[lo].unwrap();
+            assert(a.dom().contains(c));
+            assert(all == seq![DfsNodeData { depth: dp, index: c, n_remaining: count_some_from(ch, lo + 1) as usize }] + rest);
+            assert(all[0].index == c);
+            assert forall|k: int| 0 <= k < all.len() implies a.dom().contains((#[trigger] all[k]).index) && sub_nodes(a, all[k].index).subset_of(kids_nodes(a, i, lo)) by {
+                if k > 0 { assert(all[k] == rest[k - 1]); }
+            }
+            assert forall|x: usize| kids_nodes(a, i, lo).contains(x) implies exists|k: int| 0 <= k < all.len() && sub_nodes(a, (#[trigger] all[k]).index).contains(x) by {
+                if sub_nodes(a, c).contains(x) { assert(sub_nodes(a, all[0].index).contains(x)); }
+                else {
+                    assert(kids_nodes(a, i, lo + 1).contains(x));
+                    let k = choose|k: int| 0 <= k < rest.len() && sub_nodes(a, (#[trigger] rest[k]).index).contains(x);
+                    assert(all[k + 1] == rest[k]);
+                    assert(sub_nodes(a, all[k + 1].index).contains(x));
+                }
+            }
+            assert forall|k1: int, k2: int, x: usize| 0 <= k1 < k2 < all.len() implies
+                !(#[trigger] sub_nodes(a, all[k1].index).contains(x) && #[trigger] sub_nodes(a, all[k2].index).contains(x)) by {
+                assert(all[k2] == rest[k2 - 1]);
+                if k1 > 0 { assert(all[k1] == rest[k1 - 1]); }
+                else if sub_nodes(a, c).contains(x) && sub_nodes(a, rest[k2 - 1].index).contains(x) { assert(kids_nodes(a, i, lo + 1).contains(x)); }
+            }
+        }
+    } else {
+        assert(kids_nodes(a, i, lo) =~= Set::<usize>::empty());
+    }
+}
 // ---- end count_spec ----
